@@ -8,6 +8,11 @@ package main
 //
 //	NOKV_VERIF_MODE=resp      run the parseRESP stdin/stdout protocol below
 //	                          instead of the server, then exit.
+//	NOKV_VERIF_MODE=raftfake  serve RESP on NOKV_VERIF_ADDR with the real
+//	                          raftBackend (backend_raft.go) over an in-process
+//	                          fake of its client interface: an MVCC map that
+//	                          applies the percolator prewrite rule, and a
+//	                          counter as timestamp allocator. No cluster.
 //	NOKV_VERIF_HOTLIMIT=<n>   override Options.WriteHotKeyLimit of the
 //	                          embedded DB opened by main() (0 = no limit).
 //
@@ -19,18 +24,24 @@ package main
 import (
 	"bufio"
 	"bytes"
+	"context"
 	"encoding/binary"
 	"encoding/hex"
 	"encoding/json"
 	"errors"
 	"fmt"
 	"io"
+	"log"
+	"net"
 	"os"
 	"runtime"
 	"runtime/debug"
 	"strconv"
+	"sync"
 
 	NoKV "github.com/feichai0017/NoKV"
+	"github.com/feichai0017/NoKV/pb"
+	"github.com/feichai0017/NoKV/raftstore/client"
 )
 
 type verifRespOut struct {
@@ -114,9 +125,120 @@ func verifRespLoop() {
 	_ = w.Flush()
 }
 
+// ---- in-process fake of the raft client (raftfake mode) ----
+
+type verifVersion struct {
+	commit uint64
+	value  []byte
+	del    bool
+}
+
+// verifFakeKV keeps every committed version of every key. BatchGet reads the
+// newest version with commitTs <= version; Mutate applies the percolator
+// prewrite rule (percolator/txn.go prewriteMutation: write conflict iff the
+// newest write of a key has commitTs >= startVersion) and then commits all
+// mutations at commitVersion. Locks never outlive a call.
+type verifFakeKV struct {
+	mu   sync.Mutex
+	data map[string][]verifVersion
+}
+
+func (c *verifFakeKV) BatchGet(_ context.Context, keys [][]byte, version uint64) (map[string]*pb.GetResponse, error) {
+	c.mu.Lock()
+	defer c.mu.Unlock()
+	out := make(map[string]*pb.GetResponse, len(keys))
+	for _, k := range keys {
+		if len(k) == 0 {
+			return nil, fmt.Errorf("empty key")
+		}
+		resp := &pb.GetResponse{NotFound: true}
+		for _, v := range c.data[string(k)] {
+			if v.commit > version {
+				break
+			}
+			if v.del {
+				resp = &pb.GetResponse{NotFound: true}
+			} else {
+				resp = &pb.GetResponse{Value: append([]byte{}, v.value...)}
+			}
+		}
+		out[string(k)] = resp
+	}
+	return out, nil
+}
+
+func (c *verifFakeKV) Mutate(_ context.Context, _ []byte, muts []*pb.Mutation, start, commit, _ uint64) error {
+	c.mu.Lock()
+	defer c.mu.Unlock()
+	for _, m := range muts {
+		if len(m.GetKey()) == 0 {
+			return &client.KeyConflictError{Errors: []*pb.KeyError{{Abort: "empty key in mutation"}}}
+		}
+		vs := c.data[string(m.GetKey())]
+		if n := len(vs); n > 0 && vs[n-1].commit >= start {
+			return &client.KeyConflictError{Errors: []*pb.KeyError{{WriteConflict: &pb.WriteConflict{
+				Key: m.GetKey(), ConflictTs: vs[n-1].commit, StartTs: start}}}}
+		}
+	}
+	for _, m := range muts {
+		k := string(m.GetKey())
+		vs := c.data[k]
+		nv := verifVersion{commit: commit, value: append([]byte{}, m.GetValue()...), del: m.GetOp() == pb.Mutation_Delete}
+		if n := len(vs); n > 0 && vs[n-1].commit == commit {
+			vs[n-1] = nv // the same key twice in one transaction: the last mutation wins
+		} else {
+			vs = append(vs, nv)
+		}
+		c.data[k] = vs
+	}
+	return nil
+}
+
+func (c *verifFakeKV) CheckTxnStatus(context.Context, []byte, uint64, uint64) (*pb.CheckTxnStatusResponse, error) {
+	return &pb.CheckTxnStatusResponse{}, nil
+}
+
+func (c *verifFakeKV) ResolveLocks(context.Context, uint64, uint64, [][]byte) (uint64, error) {
+	return 0, nil
+}
+
+func (c *verifFakeKV) Close() error { return nil }
+
+type verifTSO struct {
+	mu   sync.Mutex
+	next uint64
+}
+
+func (t *verifTSO) Reserve(n uint64) (uint64, error) {
+	t.mu.Lock()
+	defer t.mu.Unlock()
+	start := t.next + 1
+	t.next += n
+	return start, nil
+}
+
+func verifServeRaftFake() {
+	addr := os.Getenv("NOKV_VERIF_ADDR")
+	ln, err := net.Listen("tcp", addr)
+	if err != nil {
+		log.Printf("raftfake listen %s: %v", addr, err)
+		os.Exit(1)
+	}
+	backend := &raftBackend{client: &verifFakeKV{data: map[string][]verifVersion{}}, ts: &verifTSO{next: 100}}
+	log.Printf("NoKV Redis gateway (raft backend over in-process fake) listening on %s", addr)
+	if err := newServer(backend).Serve(ln); err != nil {
+		log.Printf("serve: %v", err)
+		os.Exit(1)
+	}
+}
+
 func init() {
-	if os.Getenv("NOKV_VERIF_MODE") == "resp" {
+	switch os.Getenv("NOKV_VERIF_MODE") {
+	case "resp":
 		verifRespLoop()
+		os.Exit(0)
+	case "raftfake":
+		verifServeRaftFake()
 		os.Exit(0)
 	}
 	if hot := os.Getenv("NOKV_VERIF_HOTLIMIT"); hot != "" {
